@@ -113,7 +113,29 @@ def purge_alias():
         del sys.modules[n]
 
 
-def load(mod, model_modules, real_init=(), preload=(), extra=None, alias_abs=()):
+def _exec_transformed(full, path, transform, inject):
+    """import the module at `path` as `full`, with its AST passed through `transform` (mechanical, re-done on every run)"""
+    import ast
+    spec = importlib.util.spec_from_file_location(full, path)
+    m = importlib.util.module_from_spec(spec)
+    m.__dict__.update(inject or {})
+    with open(path) as f:
+        src = f.read()
+    tree = transform(ast.parse(src, filename=path))
+    code = compile(tree, path, 'exec', dont_inherit=True)
+    sys.modules[full] = m
+    try:
+        exec(code, m.__dict__)
+    except BaseException:
+        sys.modules.pop(full, None)
+        raise
+    parent = sys.modules.get(full.rpartition('.')[0])
+    if parent is not None:
+        parent.__dict__[full.rpartition('.')[2]] = m
+    return m
+
+
+def load(mod, model_modules, real_init=(), preload=(), extra=None, alias_abs=(), transform=None, inject=None):
     """Import scippneutron.<mod> from the working tree as snv.<mod> under the model.
 
     real_init: sub-packages whose real __init__ must run (default: none; synthetic packages).
@@ -144,6 +166,8 @@ def load(mod, model_modules, real_init=(), preload=(), extra=None, alias_abs=())
         path = os.path.join(SRC, *parts)
         if os.path.isdir(path) and mod not in real_init:
             return _synthetic_pkg(full, path)
+        if transform is not None:
+            return _exec_transformed(full, source_path(mod), transform, inject)
         return importlib.import_module(full)
 
 
